@@ -137,3 +137,54 @@ func CutDeep(p *Prog, root *ssa.Function, g Guard, site DeepSite) CutResult {
 
 // In runs f with the substitutions of a call chain in force.
 func (s DeepSite) In(f func()) { WithSubst(ChainSubst(s.Chain), f) }
+
+// SplitFind lists the instructions satisfying pred in fn and in the helpers fn
+// was split into: unexported functions, methods and closures of fn's package,
+// the same set the guard-cut traversal enters (depth <= InterDepth). stop
+// names helpers that are anchors of their own and are not entered.
+func SplitFind(fn *ssa.Function, stop func(*ssa.Function) bool, pred func(ssa.Instruction) bool) []DeepSite {
+	var out []DeepSite
+	var walk func(f *ssa.Function, chain []ssa.CallInstruction, calls []*ssa.Call)
+	walk = func(f *ssa.Function, chain []ssa.CallInstruction, calls []*ssa.Call) {
+		for _, b := range f.Blocks {
+			for _, in := range b.Instrs {
+				if pred(in) {
+					out = append(out, DeepSite{Instr: in, Fn: f, Chain: append([]ssa.CallInstruction{}, chain...)})
+				}
+			}
+		}
+		for _, b := range f.Blocks {
+			for _, in := range b.Instrs {
+				call, ok := in.(*ssa.Call)
+				if !ok {
+					continue
+				}
+				h := descendable(call, fn, calls)
+				if h == nil || (stop != nil && stop(h)) {
+					continue
+				}
+				walk(h, append(append([]ssa.CallInstruction{}, chain...), call), append(append([]*ssa.Call{}, calls...), call))
+			}
+		}
+	}
+	walk(fn, nil, nil)
+	return out
+}
+
+// SplitCalls lists calls to the named callees in fn and the helpers it was split into.
+func SplitCalls(fn *ssa.Function, stop func(*ssa.Function) bool, names ...string) []DeepSite {
+	return SplitFind(fn, stop, func(in ssa.Instruction) bool {
+		_, ok := IsCallTo(in, names...)
+		return ok
+	})
+}
+
+// SubstSnapshot copies the substitutions in force (to re-establish the frame
+// of a value found during a traversal).
+func SubstSnapshot() map[ssa.Value]ssa.Value {
+	m := make(map[ssa.Value]ssa.Value, len(substMap))
+	for k, v := range substMap {
+		m[k] = v
+	}
+	return m
+}
